@@ -73,6 +73,14 @@ func c03Alphabet(tier string) []seqSym {
 		{Name: "EVAL FSET+DEL", Args: []string{"EVAL", c03ScriptMix, "0"},
 			Model: [][]string{{"FSET", "k1", "a", "f", "9"}, {"DEL", "k1", "b"}}},
 		sy("@ADVANCE", "2"),
+		// an object past its deadline that the sweeper has not removed yet (ticks every 200 ms)
+		sy("SET", "k1", "d", "EX", "0.05", "POINT", "7", "7"),
+		sy("@ADVANCE", "0.07"),
+		sy("SET", "k1", "d", "NX", "POINT", "8", "8"),
+		// further writes made from scripts
+		{Name: "EVALNA PERSIST", Args: []string{"EVALNA", "return tile38.call('PERSIST','k1','a')", "0"}, Model: [][]string{{"PERSIST", "k1", "a"}}},
+		{Name: "EVAL EXPIRE", Args: []string{"EVAL", "return tile38.call('EXPIRE','k1','a',100)", "0"}, Model: [][]string{{"EXPIRE", "k1", "a", "100"}}},
+		{Name: "EVALNA DROP+RENAME", Args: []string{"EVALNA", "tile38.call('DROP','k2'); return tile38.pcall('RENAME','k1','k2')", "0"}, Model: [][]string{{"DROP", "k2"}, {"RENAME", "k1", "k2"}}},
 	}
 	return a
 }
